@@ -64,6 +64,13 @@ func main() {
 				os.Exit(2)
 			}
 			res = runPipeCase(&c)
+		case "boot":
+			var c BootCase
+			if err := json.Unmarshal(b, &c); err != nil {
+				fmt.Fprintf(os.Stderr, "line %d: %v\n", line, err)
+				os.Exit(2)
+			}
+			res = runBootCase(&c)
 		case "pool":
 			var c PoolCase
 			if err := json.Unmarshal(b, &c); err != nil {
